@@ -155,6 +155,19 @@ func checkC08() int {
 		}
 		cases = append(cases, e)
 	}
+	// deep chains of branching definitions: two isomorphic families compared at the head
+	for _, n := range []int{12, 24, 40} {
+		for _, k := range []int{2, 3} {
+			defs := rtypes.DeepChains(n, k, []string{"", "lin", "rep"}[(n+k)%3])
+			an := rtypes.Analyze(defs)
+			e := &ec{defs: defs, an: an, text: rtypes.DefsText(defs)}
+			for _, q := range [][2]string{{"ChA0", "ChB0"}, {"ChB0", "ChA0"}, {"ChA0", "ChA0"}, {"ChA1", "ChB1"}, {"ChA0", "ChB1"}, {"ChA0", "ChB2"}} {
+				e.queries = append(e.queries, sup.EqQuery{A: q[0], B: q[1]})
+				e.specs = append(e.specs, q)
+			}
+			cases = append(cases, e)
+		}
+	}
 	jobs := make([]sup.Job, len(cases))
 	for i, e := range cases {
 		size := int64(len(e.text))
